@@ -61,4 +61,22 @@ def normalize : CE → CE
   | .post cs e p => .post [] (attachLeft cs (normalize e)) p
   | .bin cs l ocs o r => .bin [] (attachLeft cs (normalize l)) ocs o (normalize r)
 
+/-- `utils::keep_parenthesis_comments` on the skeleton (since /repo commit a2afe54): the comments
+after `(` go in front of, those before `)` behind the comments of the node owning the first token. -/
+def wrapLeft (start stop : List Comment) : CE → CE
+  | .leaf cs a => .leaf (start ++ cs ++ stop) a
+  | .post cs e p => .post cs (wrapLeft start stop e) p
+  | .bin cs l ocs o r => .bin cs (wrapLeft start stop l) ocs o r
+
+/-- Comments of the node owning the first token, and everything printed after them. -/
+def lead : CE → List Comment
+  | .leaf cs _ => cs
+  | .post _ e _ => lead e
+  | .bin _ l _ _ _ => lead l
+
+def rest : CE → List Item
+  | .leaf _ a => [.tok a]
+  | .post _ e p => rest e ++ [.tok p]
+  | .bin _ l ocs o r => rest l ++ ocs.map .comment ++ [.tok o] ++ printCE r
+
 end SamVerif.Attach
